@@ -42,6 +42,15 @@ impl PoolSigner {
         }
     }
 
+    /// A signer over fixed pool keys (by index; nothing is drawn).
+    pub fn new_fixed(indices: &[usize]) -> Self {
+        let load = |i: usize| PKey::private_key_from_pem(crate::keys::nth_persistent(i).expect("key pool").as_bytes()).unwrap();
+        PoolSigner {
+            keys: Mutex::new(indices.iter().map(|i| load(*i)).collect()),
+            oneoff: load(indices[0]),
+        }
+    }
+
     /// Draws a fresh key from the pool.
     pub fn new_key(&self) -> usize {
         let pem = crate::keys::take_persistent().expect("key pool exhausted");
